@@ -5,6 +5,7 @@ import (
 	"fmt"
 	"net/url"
 	"os"
+	"path/filepath"
 	"runtime"
 	"strings"
 	"time"
@@ -205,15 +206,35 @@ func (c *Config) readFile() error {
 }
 
 func (c *Config) writeFile() error {
-	f, err := os.OpenFile(c.path, os.O_RDWR|os.O_CREATE|os.O_TRUNC, 0644)
+	// write a temporary file next to the config file and rename it into place, so that a process that
+	// stops while saving leaves either the previous or the new configuration, never a truncated one
+	f, err := os.CreateTemp(filepath.Dir(c.path), filepath.Base(c.path)+".tmp-*")
 	if err != nil {
 		return fmt.Errorf("error opening config file for writing: %w", err)
 	}
-	defer f.Close()
-	defer f.Sync()
+	tmp := f.Name()
+	defer os.Remove(tmp)
 
 	encoder := yaml.NewEncoder(f)
 	encoder.SetIndent(2)
-	defer encoder.Close()
-	return encoder.Encode(c)
+	if err := encoder.Encode(c); err != nil {
+		f.Close()
+		return err
+	}
+	if err := encoder.Close(); err != nil {
+		f.Close()
+		return err
+	}
+	if err := f.Chmod(0644); err != nil {
+		f.Close()
+		return err
+	}
+	if err := f.Sync(); err != nil {
+		f.Close()
+		return err
+	}
+	if err := f.Close(); err != nil {
+		return err
+	}
+	return os.Rename(tmp, c.path)
 }
